@@ -21,6 +21,7 @@ CONSTANTS
   KeyTest = TRUE
   MaxDel = 0
   ObsoleteTimeout = 1
+  LockKeys = {}
   ConsumeNet = FALSE
   Ideal = TRUE
   Ghost = TRUE
